@@ -216,7 +216,9 @@ func (r rtCfg) String() string {
 func allBuildCfgs() []buildCfg {
 	var out []buildCfg
 	for _, c := range []int{3, 8} {
-		for _, m := range []int{0, 16} {
+		// 16: consecutive chunks of one file share a zstd stream; 300: several small files (tar
+		// header + payload) and their chunks share one stream (gzip and zstd)
+		for _, m := range []int{0, 16, 300} {
 			for _, z := range []string{"gzip", "zstd"} {
 				for _, p := range []bool{false, true} {
 					out = append(out, buildCfg{c, m, z, p})
@@ -921,7 +923,7 @@ func histBuildCfgs(tier string) []buildCfg {
 	if tier == "thorough" {
 		return allBuildCfgs()
 	}
-	return []buildCfg{{3, 0, "gzip", false}, {8, 16, "gzip", true}, {3, 16, "zstd", true}, {8, 0, "zstd", false}}
+	return []buildCfg{{3, 0, "gzip", false}, {8, 16, "gzip", true}, {3, 16, "zstd", true}, {8, 0, "zstd", false}, {3, 300, "gzip", false}}
 }
 
 // histOps builds the operation alphabet of a tar: LOOKUP of every path and of an absent name
@@ -1541,8 +1543,8 @@ func main() {
 	runner.Main(runner.Check{
 		ID:    "C02",
 		Level: "exploration",
-		Rule: "inputs: every tar of <=3 members over the member alphabet (regular files a/b/d/a/./a//a/../a/'a/' with sizes {0,1,cs-1,cs,cs+1,2cs+1}, directories d/ a/ ./, symlink, hard links incl. a chain, char device, fifo, xattrs incl. an empty value, setuid, duplicate names, implicit parents; fixed distinct payload patterns) that archive/tar extraction semantics accept, x build {chunk 3,8} x {min-chunk 0,16} x {gzip, zstd:chunked} x prioritized {none, first file} x registry chunk {4,64} x chunk cache {memory, directory LRU=1, directory direct} x metadata store {memory, db}, served through memreg -> remote.Resolver -> Blob -> metadata reader -> reader (VerifyTOC) -> layer -> node tree -> go-fuse raw bridge; the complete view (cold walk, then warm walk with READ size chunk+1) must equal the archive/tar reference (lib/reftar). " +
-			"histories: for 6 representative tars x build configs x runtime configs (thorough: x verify/skip-verify), explicit-state breadth-first search over {LOOKUP, READDIR, GETATTR, LIST/GETXATTR, READLINK, READ on the chunk/EOF boundary grid, Prefetch, BackgroundFetch, drop-chunk-cache} to depth 3 from the cold state (thorough: depth 4 for the 4 quick build configs with verification, depth 3 for the other 12 build configs); every reply and, after every history prefix, the complete view must equal the reference. distinct states = (cached chunks, compressed-cache entries, fetched size, memoised directories, instantiated inodes, one-shot flags); non-trivial = distinct states reached (histories), tars with >= 2 entries (inputs)",
+		Rule: "inputs: every tar of <=3 members over the member alphabet (regular files a/b/d/a/./a//a/../a/'a/' with sizes {0,1,cs-1,cs,cs+1,2cs+1}, directories d/ a/ ./, symlink, hard links incl. a chain, char device, fifo, xattrs incl. an empty value, setuid, duplicate names, implicit parents; fixed distinct payload patterns) that archive/tar extraction semantics accept, x build {chunk 3,8} x {min-chunk 0,16,300} x {gzip, zstd:chunked} x prioritized {none, first file} x registry chunk {4,64} x chunk cache {memory, directory LRU=1, directory direct} x metadata store {memory, db}, served through memreg -> remote.Resolver -> Blob -> metadata reader -> reader (VerifyTOC) -> layer -> node tree -> go-fuse raw bridge; the complete view (cold walk, then warm walk with READ size chunk+1) must equal the archive/tar reference (lib/reftar). " +
+			"histories: for 6 representative tars x build configs x runtime configs (thorough: x verify/skip-verify), explicit-state breadth-first search over {LOOKUP, READDIR, GETATTR, LIST/GETXATTR, READLINK, READ on the chunk/EOF boundary grid, Prefetch, BackgroundFetch, drop-chunk-cache} to depth 3 from the cold state (thorough: depth 4 for the 5 quick build configs with verification, depth 3 for the other 19 build configs); every reply and, after every history prefix, the complete view must equal the reference. distinct states = (cached chunks, compressed-cache entries, fetched size, memoised directories, instantiated inodes, one-shot flags); non-trivial = distinct states reached (histories), tars with >= 2 entries (inputs)",
 		Assumptions: []string{
 			"in-memory registry (lib/memreg), perfect server behaviour (deviations are C06's business)",
 			"directory caches use SyncAdd (asynchronous commit would make the reached state timing dependent; the bytes served are the same); the compressed-blob cache is a memory cache in the inputs part and for 4-byte registry chunks, else of the same kind as the chunk cache",
